@@ -32,6 +32,15 @@ pub fn worker_case(line: &str) -> String {
     if toks.len() < 9 || toks[0] != "doc" {
         return "bad-case".into();
     }
+    if let Some(k) = toks.get(9).and_then(|t| t.strip_prefix("stack=")).and_then(|k| k.parse::<usize>().ok()) {
+        // the same case on a thread with a small stack; an overflow kills the worker process (seen by the parent)
+        let inner = toks[..9].join(" ");
+        return std::thread::Builder::new()
+            .stack_size(k << 10)
+            .spawn(move || worker_case(&inner))
+            .map(|h| h.join().unwrap_or_else(|_| "fail parse|panic|".into()))
+            .unwrap_or_else(|_| "bad-case".into());
+    }
     let o = match Opts::from_wire(&toks[1..8]) {
         Some(o) => o,
         None => return "bad-opts".into(),
@@ -241,11 +250,17 @@ struct CaseDesc {
     opts: Opts,
     spec: String,
     class: &'static str,
+    /// run the case on a thread with this small a stack (KiB): structure that is deep but far from the
+    /// sizes that exhaust the usual 8 MiB must not need a stack in proportion to its depth
+    stack_kib: Option<usize>,
 }
 
 impl CaseDesc {
     fn line(&self) -> String {
-        format!("doc {} {}", self.opts.wire(), self.spec)
+        match self.stack_kib {
+            Some(k) => format!("doc {} {} stack={}", self.opts.wire(), self.spec, k),
+            None => format!("doc {} {}", self.opts.wire(), self.spec),
+        }
     }
 }
 
@@ -422,7 +437,7 @@ fn gen_cases(cfg: &Cfg, rep: &mut Report) -> (Vec<CaseDesc>, Vec<CaseDesc>) {
         if i < 3 {
             rep.sample(format!("{} {:?} opts [{}]", class, doc.chars().take(160).collect::<String>(), o.describe()));
         }
-        small.push(CaseDesc { opts: o, spec: text_spec(&doc), class });
+        small.push(CaseDesc { opts: o, spec: text_spec(&doc), class, stack_kib: None });
     }
 
     // 2. every backtick run length inside code spans of every delimiter length
@@ -434,26 +449,26 @@ fn gen_cases(cfg: &Cfg, rep: &mut Report) -> (Vec<CaseDesc>, Vec<CaseDesc>) {
                 continue;
             }
             // a single run of length k
-            small.push(CaseDesc { opts: Opts::default(), spec: text_spec(&backtick_span(d, &[k])), class: "backtick-single-run" });
+            small.push(CaseDesc { opts: Opts::default(), spec: text_spec(&backtick_span(d, &[k])), class: "backtick-single-run", stack_kib: None });
         }
         // all runs 1..m except d, for m in a few places incl. 31, 32, 33 (the old bit-set boundary)
         for m in [5usize, 30, 31, 32, 33, 40, 64, 100] {
             let runs: Vec<usize> = (1..=m).filter(|x| *x != d).collect();
-            small.push(CaseDesc { opts: Opts::default(), spec: text_spec(&backtick_span(d, &runs)), class: "backtick-all-runs" });
-            small.push(CaseDesc { opts: Opts::all_extensions(), spec: text_spec(&backtick_span(d, &runs)), class: "backtick-all-runs" });
+            small.push(CaseDesc { opts: Opts::default(), spec: text_spec(&backtick_span(d, &runs)), class: "backtick-all-runs", stack_kib: None });
+            small.push(CaseDesc { opts: Opts::all_extensions(), spec: text_spec(&backtick_span(d, &runs)), class: "backtick-all-runs", stack_kib: None });
         }
     }
     // the same with '$' under math_dollars, and fenced code containing long fences
     for d in [1usize, 2, 3, 32, 33] {
         let s = backtick_span(d, &(1..=40).filter(|x| *x != d).collect::<Vec<_>>()).replace('`', "$");
-        small.push(CaseDesc { opts: Opts::all_extensions(), spec: text_spec(&s), class: "dollar-all-runs" });
+        small.push(CaseDesc { opts: Opts::all_extensions(), spec: text_spec(&s), class: "dollar-all-runs", stack_kib: None });
     }
     for n in [3usize, 4, 31, 32, 33, 100, 1000] {
         let f = "`".repeat(n);
         let t = "~".repeat(n);
-        small.push(CaseDesc { opts: Opts::default(), spec: text_spec(&format!("{}\n{}\n{}\n", "`".repeat(n + 1), f, "`".repeat(n + 1))), class: "fence-in-fence" });
-        small.push(CaseDesc { opts: Opts::default(), spec: text_spec(&format!("{}\n{}\n{}\n", "~".repeat(n + 1), t, "~".repeat(n + 1))), class: "fence-in-fence" });
-        small.push(CaseDesc { opts: Opts::default().with("prefer_fenced", true), spec: text_spec(&format!("    {}\n    {}\n", f, t)), class: "fence-in-indented" });
+        small.push(CaseDesc { opts: Opts::default(), spec: text_spec(&format!("{}\n{}\n{}\n", "`".repeat(n + 1), f, "`".repeat(n + 1))), class: "fence-in-fence", stack_kib: None });
+        small.push(CaseDesc { opts: Opts::default(), spec: text_spec(&format!("{}\n{}\n{}\n", "~".repeat(n + 1), t, "~".repeat(n + 1))), class: "fence-in-fence", stack_kib: None });
+        small.push(CaseDesc { opts: Opts::default().with("prefer_fenced", true), spec: text_spec(&format!("    {}\n    {}\n", f, t)), class: "fence-in-indented", stack_kib: None });
     }
 
     // 3. deep nesting / long runs, several sizes, with and without footnotes
@@ -467,7 +482,7 @@ fn gen_cases(cfg: &Cfg, rep: &mut Report) -> (Vec<CaseDesc>, Vec<CaseDesc>) {
     for &n in &sizes {
         for (spec, class) in deep_specs(n, if cfg.tier_thorough && !dev { 200_000 } else { 8_000 }) {
             for o in &variants {
-                let cd = CaseDesc { opts: o.clone(), spec: spec.clone(), class };
+                let cd = CaseDesc { opts: o.clone(), spec: spec.clone(), class, stack_kib: None };
                 if n >= 20_000 {
                     big.push(cd);
                 } else {
@@ -479,8 +494,25 @@ fn gen_cases(cfg: &Cfg, rep: &mut Report) -> (Vec<CaseDesc>, Vec<CaseDesc>) {
     for levels in [10usize, 100, 400] {
         for m in ["- ", "1. ", "> ", "* "] {
             for o in &variants {
-                small.push(CaseDesc { opts: o.clone(), spec: text_spec(&indented_list(levels, m)), class: "indented-nesting" });
+                small.push(CaseDesc { opts: o.clone(), spec: text_spec(&indented_list(levels, m)), class: "indented-nesting", stack_kib: None });
             }
+        }
+    }
+    // lists nested far deeper than one line can open (each line adds 90 levels below the previous line's), with a
+    // sibling after the outermost item so that the outer lists are finalized over the deep chain; on a 512 KiB stack
+    for (lines, marker) in [(60usize, "- "), (230, "- "), (120, "1. "), (120, "> - ")] {
+        let per = 90usize;
+        let mut parts: Vec<(Vec<u8>, usize)> = vec![];
+        for k in 0..lines {
+            parts.push((b" ".to_vec(), marker.len() * per * k));
+            parts.push((marker.as_bytes().to_vec(), per));
+            parts.push((b"a\n".to_vec(), 1));
+        }
+        parts.push((format!("{}z\n", marker).into_bytes(), 1));
+        let refs: Vec<(&[u8], usize)> = parts.iter().filter(|(_, n)| *n > 0).map(|(b, n)| (b.as_slice(), *n)).collect();
+        let spec = spec_of(&refs);
+        for o in &variants {
+            big.push(CaseDesc { opts: o.clone(), spec: spec.clone(), class: "deep-list-across-lines-small-stack", stack_kib: Some(512) });
         }
     }
     rep.add("cases-small", small.len() as u64);
